@@ -53,6 +53,14 @@ CLAIMED["C06"] = ("finite-domain abstract interpretation (argmax ordering, candi
     "Complete decision of the tie-breaking clause (strict >, first index, slice-relative index) and of the score-slot consumption agreement "
     "between predictor, accessor and trainer over the classes {0,1,>=2}; structural decision of state-vector preparation, predict_tags call/slot "
     "forms (twin blocks), sanitisation of model-derived indexes and preparation of the stored tag scores on every path. Numeric sums are not decided.", "DESIGN.md §4 C06")
+CLAIMED["C11"] = ("lookup-unwrap scan with a frozen, re-validated exception table; taint of model-derived indexes; constant/forms check of the quantiser; error-discipline analysis",
+    "Decides structural necessary conditions of totality: no unguarded unwrap/index of a data-dependent lookup in any trainer function or closure, "
+    "model-derived indexes sanitised (R06.4), quantiser constants and shared non-zero multiplier before every to_int_unchecked, every fallible call "
+    "propagated. liblinear and numeric conversions are not decided.", "DESIGN.md §4 C11")
+CLAIMED["C12"] = ("finite-domain abstract interpretation of the tag-collection and default-tag loops, index-form agreement of the three stores",
+    "Complete decision of the distinct-once clause over (tag present, already seen), of the slot/candidate agreement (shared with C06) and of the default-tag "
+    "insertion tables; structural decision that bias and both weight stores use class_offset + label with one offset variable and one n_class. "
+    "Equality of stored scores with the classifier is not decided.", "DESIGN.md §4 C12")
 NOT_YET = {}
 
 def main():
